@@ -160,6 +160,9 @@ class StmtMixin:
             vv = self.deref(v, st)
             if isinstance(vv, VAbs) and hasattr(vv, "unpack"):
                 elems = vv.unpack(len(target.elts), st, self, target)
+            elif isinstance(vv, VVal):
+                from .absobj import Comp
+                elems = [VVal(Comp(vv.t, z3.IntVal(k))) for k in range(len(target.elts))]
             elif isinstance(vv, VTuple):
                 elems = vv.elems
             elif isinstance(vv, VSeq) and vv.concrete is not None:
